@@ -178,6 +178,10 @@ func execC17(seg []Ev) []Ev {
 				w := generic.NewGenericWhitespaceState()
 				w.ClearWhitespaceChars()
 				t = &c17cls{ws: w}
+			case "ws0": // as constructed: the default registration (0..' ') is part of the history
+				t = &c17cls{ws: generic.NewGenericWhitespaceState()}
+			case "word0":
+				t = &c17cls{w: generic.NewGenericWordState()}
 			default:
 				panic("C17 target")
 			}
@@ -234,7 +238,7 @@ func cloneEv(e Ev) Ev {
 
 func genC17(g *Gen) {
 	ops := c17ops()
-	targets := []string{"map", "tokenizer", "word", "ws"}
+	targets := []string{"map", "tokenizer", "word", "ws", "ws0", "word0"}
 	// exhaustive histories of length <= 2 on the map and the tokenizer, length 1 and a sample of 2 on the classes
 	for _, tg := range targets {
 		for _, o1 := range ops {
